@@ -1552,12 +1552,26 @@ class Cell(Bucket):
 
     def _fix_invalid_placements(self, queue, servers):
         """If app is placed on non-existent server, set server to None.
+
+        If app was assigned to a different partition or requires traits the
+        server does not have (allocation changed), remove it from the server
+        so that it is placed on a proper one.
         """
         for app in queue:
             if app.server and app.server not in servers:
                 app.server = None
                 app.evicted = True
                 app.release_identity()
+            elif app.server:
+                server = servers[app.server]
+                if ((app.allocation is not None and
+                     app.allocation.label not in server.labels) or
+                        (app.traits != 0 and
+                         not server.traits.has(app.traits))):
+                    _LOGGER.info('Invalid placement: %s on %s',
+                                 app.name, server.name)
+                    server.remove(app.name)
+                    app.release_identity()
 
     def _record_rank_and_util(self, queue):
         """Set final rank and utilization for all apps in the queue.
